@@ -55,3 +55,18 @@ package lisp
 
 //@ func malRecover(err) ()
 //@   inline
+
+//@ func READ(sourceCode, cursor, ns) (r, e)
+//@   requires ns == nil || validEnvVal(ns)
+//@   panics never
+
+// placeholderRE is `^(;; \$[\-\d\w]+)+\s(.+)`: a match has three submatches and the
+// first group is at least four bytes long (";; $" and one name character) (regexp contract, assumed)
+//@ func READWithPreamble(str, cursor, ns) (r, e)
+//@   requires ns == nil || validEnvVal(ns)
+//@   panics never
+//@   loop 1 decreases len(str)
+//@   at "placeholderValue := lineItems[0][2]" assume len(lineItems[0][1]) >= 4
+
+//@ func PRINT(ast) (r)
+//@   panics never
